@@ -58,9 +58,7 @@ func gen(t *rapid.T) Case {
 	if r.Template == "testify" {
 		o.MethodFilter = func(n string) bool { return testifyAPI[n] }
 	}
-	for k := range o.Avoid {
-		vh.Excluded(k)
-	}
+	o.OnAvoid = vh.Excluded
 	mod := progen.Gen(t, o)
 	r.GenIfaceData(t, &mod)
 	return Case{Mod: mod, R: r}
